@@ -34,5 +34,6 @@ Rules
     - patch.diff   : `git diff` of the change against the worktree HEAD (must apply with `git apply` on a clean tree)
     - a demonstration: a Go test file (say demo_test.go, with a comment at the top saying into which package directory it has to be copied and the exact `go test -run ... ` command) or a small program, that FAILS (or shows the violation) with the change applied and PASSES on the unchanged tree. Actually run both and record the outputs in demo_output.txt.
     - meta.json    : {{"property": "{pid}", "summary": "...one line...", "needs_to_manifest": "...what specific condition triggers it...", "files_touched": [...], "demo_cmd": "..."}}
+* Never use `git stash` (the stash is shared by all worktrees of the repository and other agents work in sibling worktrees); save a change with `git diff > file` and restore with `git apply file`.
 * Between changes reset the worktree: git -C /tmp/mut{wave}-{pid} checkout -- . && git -C /tmp/mut{wave}-{pid} clean -fdq . Leave the worktree clean at the end.
 * Final message: for each change, one paragraph: what it is, why it breaks the property, what it needs to manifest, and confirmation that build + existing tests pass and the demo fails-with / passes-without.""")
